@@ -140,7 +140,8 @@ pub fn gen_scheme_small(g: &mut Gen) -> String {
         3 => "stop=0".to_string(),
         4 => "stop=6\n0=1-9\n1=1-3,2-5,c,1-4\n2=7-7,c,8-8,c,9-20\n3=1-1,1-1,1-1,1-1\n4=2-2,c,3-3\n5=6-8".to_string(),
         _ => {
-            let stop = g.range(0, 10);
+            // (two-digit line numbers are part of the format)
+            let stop = g.range(0, 14);
             let mut s = format!("stop={}", stop);
             // lines at and beyond `stop` are legal in a scheme and must have no effect
             for line in 0..stop + 2 {
